@@ -1,17 +1,68 @@
 // dev-c14: throw-away driver for the C14 check while it is not wired into verifcheck.
+//   dev-c14 quick|thorough      run the check
+//   dev-c14 probe-rearm         side probe: does a restart re-arm a TTL from load time?
 package main
 
 import (
+	"fmt"
 	"os"
+	"time"
 
 	"verifharness/checks/c14"
 	"verifharness/core"
+	"verifharness/respc"
+	"verifharness/srv"
 )
+
+func probeRearm() {
+	defer srv.Cleanup()
+	bin, err := srv.Build("plain")
+	if err != nil {
+		fmt.Println(err)
+		return
+	}
+	s, err := srv.Start(srv.Opts{Bin: bin})
+	if err != nil {
+		fmt.Println(err)
+		return
+	}
+	c, _ := respc.Dial(s.Addr(), 5*time.Second)
+	c.Timeout = 10 * time.Second
+	t0 := time.Now()
+	r, _ := c.Do("SET", "k", "a", "EX", "8", "POINT", "1", "1")
+	fmt.Println("t=0 SET k a EX 8 POINT 1 1 =>", r.String())
+	time.Sleep(7500 * time.Millisecond)
+	r, _ = c.Do("TTL", "k", "a")
+	fmt.Printf("t=%.1f TTL => %s\n", time.Since(t0).Seconds(), r.String())
+	c.Close()
+	s.Term(10 * time.Second)
+	s2, err := s.Restart()
+	if err != nil {
+		fmt.Println(err)
+		return
+	}
+	c, _ = respc.Dial(s2.Addr(), 5*time.Second)
+	c.Timeout = 10 * time.Second
+	for i := 0; i < 10; i++ {
+		r, _ = c.Do("TTL", "k", "a")
+		g, _ := c.Do("GET", "k", "a")
+		fmt.Printf("t=%.1f (after restart) TTL => %s GET => %s\n", time.Since(t0).Seconds(), r.String(), g.String())
+		if r.Int == -2 {
+			break
+		}
+		time.Sleep(1 * time.Second)
+	}
+	s2.Kill9()
+}
 
 func main() {
 	tier := "quick"
 	if len(os.Args) > 1 {
 		tier = os.Args[1]
+	}
+	if tier == "probe-rearm" {
+		probeRearm()
+		return
 	}
 	ctx := core.New("C14", tier, "exploration")
 	c14.Run(ctx)
